@@ -234,3 +234,35 @@ Example writer_nonvacuous :
               mkItem 2%N 2%N 9 None (Some 3%Z); mkItem 3%N 3%N 10 None (Some 3%Z)] in
   w_best nat unit Z (wrun nat unit Z Z.compare its) = Some (9, 3%Z) /\ length (w_rows nat unit Z (wrun nat unit Z Z.compare its)) = 4.
 Proof. vm_compute. split; reflexivity. Qed.
+
+(** ** when [launch_with_async_obj_func] returns.  The select loop awaits the writer after the
+    run has completed, with a report or with an error (shape regenerated from the source); the
+    writer loop is the one Writer.v models and the best-seen file is truncated before it is
+    rewritten (same).  Whatever the interleaving of the controller's sends, the writer's turns
+    and the time limit: on return the files are what the writer makes of every item sent. *)
+From Cambrian Require Import Sync.
+Example sync_drain_shape : sync_launch_drains_writer_before_return = true.  Proof. reflexivity. Qed.
+Example writer_loop_shape : writer_is_row_then_best_on_strict_improvement = true.  Proof. reflexivity. Qed.
+Example best_seen_write_shape : best_seen_file_is_truncated_then_written = true.  Proof. reflexivity. Qed.
+
+Theorem files_complete_when_launch_returns :
+  forall (V M T : Type) (tcmp : T -> T -> comparison) (evs : list (sev V M T)),
+    let s := srun V M T tcmp (N.to_nat channel_buf_size) evs in
+    sfinish V M T tcmp sync_launch_drains_writer_before_return s = wrun V M T tcmp (s_sent V M T s).
+Proof. intros. apply drained_files_hold_all_sent. reflexivity. Qed.
+Print Assumptions files_complete_when_launch_returns.
+
+(** ... and before that the rows written are a prefix of the items sent *)
+Theorem rows_written_so_far_are_a_prefix :
+  forall (V M T : Type) (tcmp : T -> T -> comparison) (evs : list (sev V M T)),
+    exists rest, s_sent V M T (srun V M T tcmp (N.to_nat channel_buf_size) evs) =
+                 w_rows V M T (s_w V M T (srun V M T tcmp (N.to_nat channel_buf_size) evs)) ++ rest.
+Proof. intros. apply rows_prefix. Qed.
+Print Assumptions rows_written_so_far_are_a_prefix.
+
+Example sync_nonvacuous :
+  let a := mkItem 0%N 0%N 7 (None : option unit) (Some 5%Z) in
+  let b := mkItem 1%N 1%N 8 (None : option unit) (Some 3%Z) in
+  let s := srun nat unit Z Z.compare (N.to_nat channel_buf_size) [EvSend nat unit Z a; EvWrite nat unit Z; EvTimeout nat unit Z; EvSend nat unit Z b] in
+  s_queue nat unit Z s = [b] /\ w_best nat unit Z (sfinish nat unit Z Z.compare true s) = Some (8, 3%Z).
+Proof. vm_compute. split; reflexivity. Qed.
